@@ -90,6 +90,13 @@ int run_c09(const Args& a, Recorder& rec) {
                 for (int k = 0; k < D; ++k) { w[k] = P.rho->getPart(BlockNumber(addr[k].first)).getWeight(addr[k].second); if (!(w[k] >= 0) || !std::isfinite(w[k])) bad = true; sum += w[k]; }
                 if (bad) { rec.violation("C09:weights-finite", "a statistical weight is negative or not finite", kase); continue; }
                 if (std::abs(sum - 1) > 1e-12) rec.violation("C09:normalisation", "weights do not sum to one (sum-1 = " + std::to_string(sum - 1) + ")", kase);
+                // call histories: prepare() / compute() called again in any order (all sequences of up to three further calls) leave every weight
+                // and the average energy as they were
+                { double e0 = P.rho->getAverageEnergy();
+                  for (int len = 1; len <= 3; ++len) for (int code = 0; code < (1 << len); ++code) { DensityMatrix R(*P.S, *P.H, beta); R.prepare(); R.compute(); std::string hs = "prepare();compute()";
+                      for (int q = 0; q < len; ++q) { if ((code >> q) & 1) { R.compute(); hs += ";compute()"; } else { R.prepare(); hs += ";prepare()"; } }
+                      rec.evaluations++; double dmax = 0; for (int k = 0; k < D; ++k) dmax = std::max(dmax, std::abs(R.getPart(BlockNumber(addr[k].first)).getWeight(addr[k].second) - w[k]));
+                      if (dmax > 1e-13 || std::abs(R.getAverageEnergy() - e0) > 1e-11 * (1 + std::abs(e0))) { rec.violation("C09:call-history", "weights or average energy change when prepare()/compute() are called again (max weight change " + std::to_string(dmax) + ")", kase + " | " + hs); break; } } }
                 // ratios against the library's own eigenvalues (the eigenvalues themselves are C03's subject)
                 int k0 = 0; for (int k = 0; k < D; ++k) if (w[k] > w[k0]) k0 = k;
                 for (int k = 0; k < D; ++k) if (w[k] > 1e-300) {
